@@ -201,6 +201,85 @@ def sec_combine(rec, patches=None):
             rec.query(f"combine/dual-axis=union{idx}", h, zb(du[idx]) == z3.Or(zb(my[idx]), zb(mx[idx])), key="C08/union", twin=False, nonlinear=True)
 
 
+def replay_history(cex):
+    """installed library, caches active: masks requested in different orders for the same tilt range must equal the masks of a fresh process"""
+    from scipy.spatial.transform import Rotation
+    from acryo.tilt import single_axis, dual_axis
+    import acryo.tilt._utils as TU
+    import acryo._utils as U
+
+    def clear():
+        for mod in (TU, U):
+            for f in vars(mod).values():
+                if hasattr(f, "cache_clear"):
+                    f.cache_clear()
+
+    rot = Rotation.from_rotvec([0.3, -0.5, 0.2])
+    bad = []
+    for shape in ((9, 10, 12), (8, 8, 8)):
+        for r in ((-60.0, 60.0), (-50.0, 40.0)):
+            fresh = {}
+            for name, mk in (("y", lambda: single_axis(r, "y")), ("x", lambda: single_axis(r, "x")), ("dual", lambda: dual_axis(r, r))):
+                clear()
+                fresh[name] = np.asarray(mk().create_mask(rot, shape)).copy()
+            for order in (("x", "y", "dual", "y"), ("dual", "dual", "y", "x"), ("y", "x", "y", "dual")):
+                clear()
+                for k, name in enumerate(order):
+                    mk = {"y": lambda: single_axis(r, "y"), "x": lambda: single_axis(r, "x"), "dual": lambda: dual_axis(r, r)}[name]
+                    got = np.asarray(mk().create_mask(rot, shape))
+                    if got.shape != fresh[name].shape or (got != fresh[name]).any():
+                        bad.append({"shape": list(shape), "tilt": list(r), "order": list(order), "call": k, "model": name, "wrong_bins": int((got != fresh[name]).sum())})
+    clear()
+    return len(bad) > 0, {"n": len(bad), "examples": bad[:4]}
+
+
+def sec_history(rec, patches=None):
+    """functools.lru_cache left active: the same tilt range requested for x, y and dual-axis models in several orders gives the masks of a fresh computation"""
+    Lc = load.load(MODS, overrides={"Rotation": rotation.SymRotation}, patches=patches, keep_cache=True)
+    Lf = _load(patches)
+    rec.encodes("acryo/tilt/_utils.py:get_norms_y (cached)", "acryo/tilt/_utils.py:get_norms_x (cached)", "acryo/tilt/_single.py:SingleAxis.create_mask", "acryo/tilt/_base.py:UnionAxes.create_mask", "acryo/tilt/core.py:dual_axis")
+    rec.assume("functools.lru_cache is the real one in this section (keys: the tilt-range tuple)")
+    t0, h0 = make_tilt("tmin")
+    t1, h1 = make_tilt("tmax")
+    hyps = h0 + h1 + ordered(t0, t1) + [t0.deg.e < t1.deg.e]
+    q = list(rotation.R30[9])
+    shape = (2, 3, 4)
+    rng = (t0, t1)
+    orders = (("x", "y", "dual", "y"), ("dual", "dual", "y", "x"), ("y", "x", "y", "dual"))
+
+    def mk(T, name):
+        return T.single_axis(rng, name) if name in "xy" else T.dual_axis(rng, rng)
+
+    for order in orders:
+        tag = f"history[{'>'.join(order)}]"
+
+        def run():
+            rot = rotation.SymRotation(q)
+            Tc, Tf = Lc["acryo.tilt.core"], Lf["acryo.tilt.core"]
+            for mod in list(Lc.values()):
+                for f in list(vars(mod).values()):
+                    if hasattr(f, "cache_clear"):
+                        f.cache_clear()
+            got = [mk(Tc, name).create_mask(rot, shape) for name in order]
+            want = {name: mk(Tf, name).create_mask(rot, shape) for name in set(order)}
+            return got, want
+
+        for pi, p in enumerate(explore(run, assumptions=hyps, max_paths=20)):
+            if not p.ok:
+                ok, det = replay_history({})
+                rec.fact(f"{tag}/runs", False, key="C08/history/raises", detail={"exc": repr(p.exc)[:300], **det}, reproduced=ok)
+                continue
+            got, want = p.result
+            h = hyps + [p.condition()]
+            for k, name in enumerate(order):
+                g, w = _obj(got[k]), _obj(want[name])
+                if g.shape != w.shape:
+                    rec.fact(f"{tag}/call{k}({name})/shape", False, key="C08/history/mask-changed", detail={}, reproduced=replay_history({})[0])
+                    continue
+                goal = z3.And(*[zb(g[idx]) == zb(w[idx]) for idx in np.ndindex(shape)])
+                rec.query(f"{tag}/call{k}({name})=mask-of-a-fresh-computation", h, goal, key="C08/history/mask-changed", replay=replay_history, twin=False, nonlinear=True)
+
+
 def sec_dispatch(rec, patches=None):
     """tilt=(a,b), tilt=single_axis((a,b)), tilt_range=(a,b) select the same model; tilt=None selects no wedge"""
     L = load.load(MODS + ["acryo._rotation", "acryo.alignment._base"], overrides={"Rotation": rotation.SymRotation}, patches=patches)
@@ -276,7 +355,7 @@ def _shapes(tier):
 
 
 def sections(tier):
-    S = [("combine", "checks.c08", "sec_combine", {}), ("dispatch", "checks.c08", "sec_dispatch", {})]
+    S = [("combine", "checks.c08", "sec_combine", {}), ("dispatch", "checks.c08", "sec_dispatch", {}), ("cache-history", "checks.c08", "sec_history", {})]
     shapes = _shapes(tier)
     quats = rotation.R6 if quick(tier) else rotation.R30
     for si, shp in enumerate(shapes):
